@@ -22,8 +22,8 @@ WF = {'R': WM.RECURSIVE, 'H': WM.HIDDEN, 'S': WM.SYMLINKS, 'F': WM.FILEPATHNAME,
 LETTERS = 'RHSFDXGEBMI'
 
 FILE_PATS = ['*', '', 'a', '.h', 'a|b', '!a', '*|!a', '!a|!b', '-a', '@(a|b)', '{a,b}', '**/a', 'a/*', '*/a', '*/*', 'b', '.*',
-             '!*/a', '**', '[ab]', '!.h']
-EXCL_PATS = ['', 'a', '.h', '!a', 'b|a', '*/a', '**/a', 'a/', '*', '-b', '!a/b', '.*']
+             '!*/a', '**', '[ab]', '!.h', '/a', '/*/a', '**/*|!/a/*', '/b|a']
+EXCL_PATS = ['', 'a', '.h', '!a', 'b|a', '*/a', '**/a', 'a/', '*', '-b', '!a/b', '.*', '/a', '/a/b']
 FILE_PATS_CASE = ['a', 'A', '[aA]', '*', '!A', 'a|B']
 
 
@@ -211,6 +211,12 @@ def check_state(desc, sc, pairs, flagsets, res):
                 res.add_violation(ID, run.viol('skipped-count', inp, visited - len(want), skipped))
             else:
                 res.outcomes.add('walk-agrees' if want else 'walk-agrees-empty')
+                if (k + j) % 5 == 0:
+                    # the same object run again: same files, counter restarted
+                    again = sorted(os.path.relpath(x, root) for x in w.match())
+                    if again != gotr or w.get_skipped() != skipped:
+                        res.add_violation(ID, run.viol('rerun-differs', inp, {'result': gotr, 'skipped': skipped},
+                                                       {'result': again, 'skipped': w.get_skipped()}))
 
 
 def plan(tier, seed):
@@ -274,6 +280,10 @@ def replay(v):
         gotr = sorted(os.path.relpath(x, sc.root) for x in got)
         if v['kind'] == 'skipped-count':
             return {'violates': w.get_skipped() != v['expected'], 'observed': w.get_skipped()}
+        if v['kind'] == 'rerun-differs':
+            sk = w.get_skipped()
+            again = sorted(os.path.relpath(x, sc.root) for x in w.match())
+            return {'violates': again != gotr or w.get_skipped() != sk, 'observed': {'result': again, 'skipped': w.get_skipped()}}
         return {'violates': gotr != v['expected'], 'observed': {'result': gotr}}
     finally:
         sc.close()
